@@ -1,5 +1,6 @@
 import LitexModel.Timeout.Wb
 import LitexModel.Timeout.Axi
+import LitexModel.Timeout.AxiXbar
 import LitexModel.Timeout.BusErr
 import LitexModel.DriverLib
 import LitexModel.Bits
@@ -20,6 +21,7 @@ import LitexModel.Bits
             per slave: arr rv rresp rdata rlast
        out: per slave: awv awa wv br ; per master: awr wr bv bresp ; per slave: arv ara rr ;
             per master: arr rv rresp rdata rlast ; error grant_w grant_r
+  open axxbar <full> <n> <k> <dw> <sh>     same letter as axshared; out: the same without `error grant_w grant_r`
   open buserr <w> <init>                   in : bus_error                    out: bus_errors
 
   Address decoders: slave `j` answers iff `addr >>> sh == j` (addresses with `addr >>> sh ≥ k` are unmapped).
@@ -153,6 +155,19 @@ def numAxShared (c : Axi.Cfg) : NumMachine (Axi.DState × Axi.DState) where
      [b2n (ow.error || or.error), s.1.grant, s.2.grant])
   key s := toString (repr s)
 
+def axOutNats (c : Axi.Cfg) (ow : Axi.WBusOut) (or : Axi.RBusOut) : List Nat :=
+  ((List.range c.k).map fun j => let m := ow.toS j; [b2n m.awv, m.awa, b2n m.wv, b2n m.br]).flatten ++
+  ((List.range c.n).map fun i => let v := ow.toM i; [b2n v.awr, b2n v.wr, b2n v.bv, v.bresp]).flatten ++
+  ((List.range c.k).map fun j => let m := or.toS j; [b2n m.arv, m.ara, b2n m.rr]).flatten ++
+  ((List.range c.n).map fun i => let v := or.toM i; [b2n v.arr, b2n v.rv, v.rresp, v.rdata, b2n v.rlast]).flatten
+
+def numAxXbar (c : Axi.Cfg) : NumMachine (Axi.XState × Axi.XState) where
+  init := (Axi.xInit c, Axi.xInit c)
+  step s ins := (axIn c.n c.k ins).map fun (xw, xr) =>
+    ((Axi.XbarW.next c s.1 xw, Axi.XbarR.next c s.2 xr),
+     axOutNats c (Axi.XbarW.out c s.1 xw) (Axi.XbarR.out c s.2 xr))
+  key s := toString (repr s)
+
 /-! ### `open` dispatcher -/
 
 def openMachine (args : List String) (hin hout : IO.FS.Stream) : Option (IO Bool) :=
@@ -179,6 +194,10 @@ def openMachine (args : List String) (hin hout : IO.FS.Stream) : Option (IO Bool
     let full ← full.toNat?; let n ← n.toNat?; let k ← k.toNat?; let t ← parseT t
     let dw ← dw.toNat?; let sh ← sh.toNat?
     some (serve (numAxShared { n, k, dec := hiDec sh, t, dw, full := n2b full }) hin hout)
+  | ["axxbar", full, n, k, dw, sh] => do
+    let full ← full.toNat?; let n ← n.toNat?; let k ← k.toNat?
+    let dw ← dw.toNat?; let sh ← sh.toNat?
+    some (serve (numAxXbar { n, k, dec := hiDec sh, t := none, dw, full := n2b full }) hin hout)
   | _ => none
 
 end Litex.Timeout
